@@ -47,6 +47,11 @@ def instances(tier):
         out.append({"kind": "sends", "gen": g, "k": 3, "a": 1, "cat": [0, 3, 0], "bp": False, "dup": True})
         out.append({"kind": "sends", "gen": g, "k": 2, "a": 0, "cat": [3, 17], "bp": True})
         out.append({"kind": "sends", "gen": g, "k": 2, "a": 1, "cat": [3, 17], "bp": True})
+    # interleavings inside one instant: sends issued j loop turns after the connection is handed over / after the first
+    # frame's write (the connect is completing, the held messages are being flushed, subscribers are being notified)
+    for g in (4, 5):
+        for anchor in ("accept", "write", "write_bp"):
+            out.append({"kind": "turns", "gen": g, "k": 2 if tier == "quick" else 3, "anchor": anchor, "span": 10 if tier == "quick" else 8})
     # every message class as first/second message (content check of the frame of *that* message)
     n = 18
     step = 3 if tier == "quick" else 1
@@ -66,7 +71,70 @@ def run(ctx, p):
         return _counter_step(ctx, p)
     if k == "counter_wrap":
         return _counter_wrap(ctx, p)
+    if k == "turns":
+        return _turns(ctx, p)
     return _sends(ctx, p)
+
+
+def _turns(ctx, p):
+    """One message is held while the console refuses; the console accepts at t = 2.0; k further sends are issued j_i loop
+    turns after the anchor event, all at that same virtual instant. Every message goes out once, in acceptance order."""
+    g = Gen(p["gen"])
+    S = socket_mod()
+    cat = catalog.catalog(g)
+    k = p["k"]
+    js = [ctx.choice(f"j{i}", p["span"]) for i in range(k)]
+    order = []
+    results = {}
+    with Rig(ctx, g) as rig:
+        rig.net.on_connect = lambda net, n: ("accept", 0) if n >= 1 else ("refuse",)
+        if p["anchor"] == "write_bp":
+            rig.net.on_drain = lambda conn, n: 0.5 if n == 1 else None       # the first frame's drain() is suspended (back-pressure)
+        kinds = [3, 17, 0, 5]
+
+        def sender(i):
+            async def go():
+                order.append(i)
+                try:
+                    await rig.sock.send(cat[kinds[i]][1](i + 1), S.RetryPolicy(max_retries=1, max_lifetime=30.0))
+                    results[i] = "ok"
+                except Exception as e:  # noqa: BLE001
+                    results[i] = type(e).__name__
+            return go
+
+        def hop(n, fn):
+            if n <= 0:
+                fn()
+            else:
+                rig.loop.call_soon(hop, n - 1, fn)
+
+        armed = {"on": True}
+
+        def fire():
+            if armed["on"]:
+                armed["on"] = False
+                for i in range(1, k + 1):
+                    hop(js[i - 1], (lambda i=i: rig.spawn(sender(i)())))
+
+        if p["anchor"] == "accept":
+            rig.net.on_accept = lambda conn: fire()
+        else:
+            rig.net.on_write = lambda conn, data: fire()
+        rig.spawn(rig.sock.open_socket())
+        rig.loop.vt_call_at(0.5, lambda: rig.spawn(sender(0)()))      # held while the console refuses
+        rig.loop.vt_run(9.25)
+        detail = {"turns": js, "acceptance_order": list(order), "results": dict(results)}
+        ctx.observe("order", list(order))
+        ctx.check(all(results.get(i) == "ok" for i in range(k + 1)), "sends.accepted", detail=detail)
+        ctx.check(len(rig.net.conns) == 1 and rig.net.max_open == 1, "sends.wire", detail=dict(detail, conns=len(rig.net.conns)))
+        wire = rig.net.conns[0].written() if rig.net.conns else []
+        exp = []
+        for pos, i in enumerate(order):
+            exp += catalog.ref_frame(g.n, cat[kinds[i]], i + 1, pos)
+        ctx.check(bytes(wire) == bytes(exp), "sends.wire", detail=dict(detail, wire_len=len(wire), expected_len=len(exp)))
+        ctx.check(not rig.task_failures(), "sends.wire", detail="unhandled exception in a socket task")
+        for lab in ("counter.step", "counter.wrap", "sends.contiguous"):
+            ctx.reach(lab)
 
 
 def _counter_step(ctx, p):
